@@ -2539,3 +2539,89 @@ Proof. reflexivity. Qed.
 Lemma init_tk_def st n0 :
   init_tk st n0 <-> first_of st - 1 = snap_index st \/ first_of st <= committed (r_log (rn_raft n0)).
 Proof. reflexivity. Qed.
+
+(* ================================================================== *)
+(* Witnesses: clauses of the contract that are needed                   *)
+(* ================================================================== *)
+Module ContractWitnesses.
+  Import Samples RepInvSamples ContractSamples.
+
+  (* the contract-abiding prefix up to f3 (MsgAppend, ready, write, advance) *)
+  Lemma crun_to_f3 : exists a, crun (init_app cfg store3) f0 a f3
+                               /\ a_applied a = 0 /\ a_phase a = Idle /\ a_store a = store (nlog f3).
+  Proof.
+    eexists. split.
+    - eapply (crun_cons _ f0 (OStep app1) f1 no_out).
+      { apply AN_idle; reflexivity. } { exact app1_peer. } { vm_compute. reflexivity. } { vm_compute. reflexivity. }
+      eapply (crun_cons _ f1 OReady (fst rd1)).
+      { eapply AN_ready; [reflexivity|vm_compute; reflexivity]. } { exact I. } { vm_compute. reflexivity. }
+      { vm_compute. reflexivity. }
+      eapply (crun_cons _ (fst rd1) (OSetStore st1) f2 no_out).
+      { eapply AN_ents; [reflexivity|vm_compute; reflexivity]. } { exact I. } { vm_compute. reflexivity. }
+      { reflexivity. }
+      eapply (crun_cons _ f2 (OAdvance (snd rd1)) f3).
+      { apply AN_advance. reflexivity. } { exact I. } { vm_compute. reflexivity. } { vm_compute. reflexivity. }
+      apply crun_nil.
+    - vm_compute. repeat split.
+  Qed.
+
+  (* compaction above the applied index (here 2 > applied = 0; the entry at 2 is kept, so the
+     storage accepts it): the term at the commit index is gone and the next campaign panics
+     at 1422 *)
+  Definition mc : MemStorage.mem.
+  Proof. let x := eval vm_compute in (compact (store (nlog f3)) 2) in match x with Ok ?m => exact m end. Defined.
+
+  Theorem compact_above_applied_refuted :
+    exists a, crun (init_app cfg store3) f0 a f3 /\ a_phase a = Idle /\ a_applied a = 0
+      /\ compact (a_store a) 2 = Ok mc /\ 2 < next_of (a_store a)
+      /\ rn_campaign (set_store_node f3 mc) = Panic site_l_commit_info.
+  Proof.
+    destruct crun_to_f3 as (a & R & A1 & A2 & A3). exists a. split; [exact R|]. split; [exact A2|].
+    split; [exact A1|]. rewrite A3. split; [vm_compute; reflexivity|]. split; vm_compute; reflexivity.
+  Qed.
+
+  (* a library call between ready() and the advance of that Ready (here a further MsgAppend):
+     the Ready is then written exactly, but advance panics (unstable.slice has a different
+     last entry) *)
+  Definition app3 : msg :=
+    msg_default <| m_type := MsgAppend |> <| m_from := 2 |> <| m_to := 1 |> <| m_term := 1 |>
+      <| m_index := 2 |> <| m_log_term := 1 |> <| m_entries := [mkEntry 0 1 3 [] []] |> <| m_commit := 1 |>.
+  Definition w2a : rawnode. Proof. from_ok (x <- exec (fst rd1) (OStep app3) ;; Ok (fst x)). Defined.
+
+  Theorem step_between_ready_and_advance_refuted :
+    peer_msgs_ok app3
+    /\ exec (fst rd1) (OStep app3) = Ok (w2a, no_out)
+    /\ append (store (nlog w2a)) (rd_entries (snd rd1)) = Ok st1
+    /\ exec (set_store_node w2a st1) (OAdvance (snd rd1)) = Panic site_u_stable_entries_mismatch.
+  Proof.
+    split.
+    { split; intros E; [|vm_compute in E; discriminate E].
+      split; [cbn; repeat split; reflexivity|]. split; [repeat constructor; discriminate|].
+      split; [vm_compute; reflexivity|right; discriminate]. }
+    split; [vm_compute; reflexivity|]. split; vm_compute; reflexivity.
+  Qed.
+
+  (* Config.applied below the store's snapshot point (init_ok's third clause): hand-out starts
+     at the first index of the log, not at Config.applied + 1 *)
+  Definition st57 : MemStorage.mem :=
+    mkMem (mkHS 1 0 7) (cs_from [1] []) [mkEntry 0 1 6 [] []; mkEntry 0 1 7 [] []] 5 1 false false None.
+  Definition n57 : rawnode.
+  Proof.
+    let x := eval vm_compute in (rn_new cfg st57 None [15; 15; 15; 15]) in
+    match x with Ok (inr ?n) => exact n end.
+  Defined.
+
+  Theorem applied_below_snapshot_refuted :
+    rn_new cfg st57 None [15; 15; 15; 15] = Ok (inr n57) /\ SInv st57
+    /\ c_applied cfg = 0 /\ first_of st57 - 1 = 5 /\ committed (nlog n57) = 7
+    /\ exists n1 rd, rn_ready n57 = Ok (n1, rd)
+         /\ map e_index (lr_committed_entries (rd_light rd)) = [6; 7]
+         /\ ~ Hist n1 (hist_step (c_applied cfg, []) (None, lr_committed_entries (rd_light rd))).
+  Proof.
+    split; [vm_compute; reflexivity|].
+    split; [unfold MemStorageProofs.RepInv, next_of, first_of, st57, u64_max; cbn; repeat split; lia|].
+    split; [reflexivity|]. split; [reflexivity|]. split; [reflexivity|].
+    eexists. eexists. split; [vm_compute; reflexivity|]. split; [reflexivity|].
+    intros [Hc _]. vm_compute in Hc. destruct Hc as [Hc _]. discriminate Hc.
+  Qed.
+End ContractWitnesses.
